@@ -19,8 +19,21 @@ True / WHOLE CHUNKS MASKED (per block of the data's chunking), data chunked inde
 from the mask, masked inputs built either with da.ma.masked_array(dask data, dask mask) or
 with da.from_array(numpy masked array).
 
-Calibration
-* (filled in by the calibration runs; see the bottom of this docstring)
+Calibration (false alarms of the first version, corrected)
+* default fill_value: numpy.ma keeps e.g. int64(999999) for an int8 array and casts on use, dask passes dtype= and gets
+  int8(63): fill values are compared after casting to the array dtype (as `filled()` uses them).
+* Python-scalar operands: numpy.ma converts the scalar to a 0-d array before the ufunc, so `masked_uint8 * 2` is int64 in
+  numpy.ma but uint8 under NumPy's weak-scalar rules (which dask's metadata follows), and `masked_uint8 * -1` does not
+  raise in numpy.ma while NumPy proper does: dtype not compared for Python-scalar operands, uint8 with -1 rejected.
+* `numpy MaskedArray <op> dask array` never reaches dask (MaskedArray.__op__ computes it): reversed binary operators
+  with a numpy operand are run in the forward direction.
+* numpy.ma mean/std/var of float32 are float64 with a mask array and float32 with nomask: only the dtype kind is
+  compared for mean/std/var/average, values with the float32 tolerance.
+* lazy dtype/shape metadata is not part of the statement: not checked (a lazy/computed dtype disagreement for
+  Python-scalar operands is listed as a side observation in findings_proposed/C33.md).
+* reductions / average / nonzero over zero-length axes belong to the generic reduction machinery (C22), not to numpy.ma
+  semantics: rejected for these families (zero-length axes stay in for construction, masked_*, elementwise, filled).
+* the label of a fully masked 0-d reference (`np.ma.masked`) does not carry the operation: one mechanism.
 """
 from __future__ import annotations
 
